@@ -409,11 +409,15 @@ namespace ST
         {
             if (is_reffed())
                 delete[] m_chars;
-            else
-                traits_t::assign(m_data, local_length, 0);
 
+            // Stay a valid empty buffer in case the allocation below throws
+            m_chars = m_data;
+            m_size = 0;
+            traits_t::assign(m_data, local_length, 0);
+
+            if (size >= local_length)
+                m_chars = new char_T[size + 1];
             m_size = size;
-            m_chars = is_reffed() ? new char_T[m_size + 1] : m_data;
             m_chars[m_size] = 0;
         }
 
